@@ -402,12 +402,18 @@ fn c03(c: &mut Checker) {
         let r = c.exec(&cfg, &has_break);
         let mut out = vec![];
         rules::h_stop(&r, &mut out);
+        if !c.scn.has_dup {
+            rules::h_stop_inside(&r, &mut out);
+        }
         rules::h_prefix_and_handover(&base, &r, k, true, &mut out);
         c.record(out, &cfg, &r);
         let cfg = c.cfg(Script::CkBC(k));
         let r = c.exec(&cfg, &has_break);
         let mut out = vec![];
         rules::h_stop(&r, &mut out);
+        if !c.scn.has_dup {
+            rules::h_stop_inside(&r, &mut out);
+        }
         rules::h_prefix_and_handover(&base, &r, k, false, &mut out);
         c.record(out, &cfg, &r);
         if !c.found.is_empty() {
@@ -420,11 +426,25 @@ fn c03(c: &mut Checker) {
     rules::h_stop(&r, &mut out);
     rules::h_first(&base, &r, &mut out);
     c.record(out, &cfg, &r);
-    let cfg = c.cfg(c.scn.script.clone());
-    let r = c.exec(&cfg, &has_break);
-    let mut out = vec![];
-    rules::h_stop(&r, &mut out);
-    c.record(out, &cfg, &r);
+    // random (non-monotone) answer scripts: the scenario's own and three derived from it
+    let mut scripts = vec![c.scn.script.clone()];
+    if let Script::Bits(bits, d) = &c.scn.script {
+        let mut rng = Rng::new(simcore::rng::mix(c.scn.seed, 0xC03, c.scn.run_index));
+        for p in [150usize, 400, 700] {
+            let n = bits.len().max(8);
+            scripts.push(Script::Bits((0..n).map(|_| rng.below(1000) < p).collect(), !*d));
+        }
+    }
+    for s in scripts {
+        let cfg = c.cfg(s);
+        let r = c.exec(&cfg, &has_break);
+        let mut out = vec![];
+        rules::h_stop(&r, &mut out);
+        if !c.scn.has_dup {
+            rules::h_stop_inside(&r, &mut out);
+        }
+        c.record(out, &cfg, &r);
+    }
     // same through the real serde_json source
     if c.scn.doc.json_representable() {
         let mut bcfg = c.cfg(Script::AllC);
@@ -586,6 +606,9 @@ fn c06(c: &mut Checker) {
             let mut out = vec![];
             rules::m_value("M-value", &exp, &r, &mut out);
             rules::m_reports("M-reports", &exp, &r, Strict::Full, &all_classes, &mut out);
+            // "is reported naming that key and makes the call fail": what the container
+            // reported must also be in the error it returns
+            out.extend(conservation_rules(&r));
             c.record(out, &cfg, &r);
         }
     }
